@@ -138,6 +138,21 @@ func (e *Engine) Discharge(obls []*Obligation, outDir string, timeout int, par i
 					return
 				}
 			}
+			// stage 3 (slice.go): the same obligation with the assumptions irrelevant for the goal dropped
+			// (sound: fewer assumptions); only when the full query was not proved
+			if !allAgree && timeout > 2 {
+				if rr, ok := e.trySliced(o, outDir, timeout); ok {
+					o.Status, o.Backend, o.Secs = "unsat", rr.solver+"/sliced", rr.secs
+					return
+				}
+			}
+			// stage 4 (split.go): case split on the disjuncts of the reachability guard
+			if !allAgree && timeout > 2 {
+				if secs, ok := e.trySplit(o, outDir, timeout); ok {
+					o.Status, o.Backend, o.Secs = "unsat", "portfolio/by-cases", secs
+					return
+				}
+			}
 			// none proved it (or all must agree)
 			nUnsat := 0
 			var sat *solveResult
@@ -212,4 +227,39 @@ func parseGetValue(out string) map[string]string {
 		}
 	}
 	return m
+}
+
+// trySliced runs the portfolio on the relevance-sliced query of o (see slice.go).
+func (e *Engine) trySliced(o *Obligation, outDir string, timeout int) (solveResult, bool) {
+	goal := strings.Join(o.Extra, "\n") + "\n" + o.Guard + "\n" + o.Goal
+	lines, dropped := sliceScript((*o.Script)[:o.Prefix], goal)
+	if !dropped {
+		return solveResult{}, false
+	}
+	var body strings.Builder
+	for _, l := range lines {
+		body.WriteString(l)
+		body.WriteString("\n")
+	}
+	for _, l := range o.Extra {
+		body.WriteString(l)
+		body.WriteString("\n")
+	}
+	body.WriteString("(assert (not " + sImp(o.Guard, o.Goal) + "))\n")
+	b := body.String()
+	txt := "; obligation " + o.Name + " (relevance slice)\n(set-logic ALL)\n" + e.Prelude.Slice(b) + b + "(check-sat)\n"
+	file := filepath.Join(outDir, strings.TrimSuffix(o.fileName(), ".smt2")+".sliced.smt2")
+	os.WriteFile(file, []byte(txt), 0o644)
+	ctx, cancel := context.WithCancel(context.Background())
+	defer cancel()
+	ch := make(chan solveResult, len(solvers))
+	for _, sp := range solvers {
+		go func(sp solverSpec) { ch <- runSolver(ctx, sp, file, timeout) }(sp)
+	}
+	for range solvers {
+		if rr := <-ch; rr.status == "unsat" {
+			return rr, true
+		}
+	}
+	return solveResult{}, false
 }
